@@ -32,8 +32,16 @@ def main():
     only = [a for a in sys.argv[1:] if not a.startswith('--')]
     results = {}
     rp = os.path.join(SEEDED, 'RESULTS.json')
-    if os.path.exists(rp):
-        results = json.load(open(rp))
+    if '--aggregate' in sys.argv:
+        for sid in sorted(os.listdir(SEEDED)):
+            f = os.path.join(SEEDED, sid, 'result.json')
+            if os.path.exists(f):
+                results[sid] = json.load(open(f))
+        json.dump(results, open(rp, 'w'), indent=1)
+        for sid, r in results.items():
+            print(sid, r['property'], 'caught by own check (%s)' % r.get('by') if r.get('caught') else
+                  ('missed by own check; caught by ' + ','.join(r['caught_by_other_checks']) if r.get('caught_by_other_checks') else 'MISSED'))
+        return
     for sid in sorted(os.listdir(SEEDED)):
         d = os.path.join(SEEDED, sid)
         if not os.path.isdir(d) or (only and sid not in only):
@@ -83,7 +91,8 @@ def main():
             elif wt:
                 sh(['git', '-C', '/repo', 'worktree', 'remove', '--force', wt])
                 shutil.rmtree(wt, ignore_errors=True)
-        json.dump(results, open(rp, 'w'), indent=1)
+            if sid in results:
+                json.dump(results[sid], open(os.path.join(d, 'result.json'), 'w'), indent=1)
 
 
 if __name__ == '__main__':
